@@ -6,7 +6,7 @@
 From Coq Require Import Bool NArith List Lia Arith.
 Import ListNotations.
 From RsddV Require Import Base.Bdd Model.SddVtree Model.SddOps Model.Wmc Model.SddWmc.
-From RsddV Require Import Proofs.SddBase Proofs.SddVtree Proofs.SddInv Proofs.Wmc Proofs.SddWmc Proofs.SddScratch.
+From RsddV Require Import Proofs.SddBase Proofs.SddVtree Proofs.SddInv Proofs.SddProg Proofs.Wmc Proofs.SddWmc Proofs.SddWmcLink Proofs.SddScratch Proofs.SddScratchCount.
 
 (* The model's recursion (with the pending negation as a flag) is literally the loop of the code:
    for a node pointer, fold(ptr) = the loop over ptr.node_iter() of
@@ -46,7 +46,6 @@ Check C07S_sdd_wmc_correct : forall (S : Type) (add mul : S -> S -> S) (zero one
   sdd_wmc_c S add mul zero one wlo whi fl p =
   wmc_spec S add mul zero one wlo whi vars (fun a => xorb fl (sden p a)) x.
 Print Assumptions C07S_sdd_wmc_correct.
-Definition C07S_main := C07S_sdd_wmc_correct.
 
 (* the public entry point on the negated pointer p.neg() *)
 Theorem C07S_sdd_wmc_neg_correct : forall (S : Type) (add mul : S -> S -> S) (zero one : S),
@@ -146,8 +145,7 @@ Theorem C07S_sdd_fold_memo_eq : forall (T : Type) fTrue fFalse fLit fAnd fOr p f
   sfinv T fTrue fFalse fLit fAnd fOr s ->
   let '(r, s') := sdd_fold_memo T fTrue fFalse fLit fAnd fOr fl p s in
   r = sdd_fold_c T fTrue fFalse fLit fAnd fOr fl p /\ sfinv T fTrue fFalse fLit fAnd fOr s' /\
-  (forall n, ~ In n (sdd_nodes p) -> s' n = s n) /\
-  (forall n, In n (sdd_nodes p) -> s' n <> None).
+  (forall n, ~ In n (sdd_nodes p) -> s' n = s n).
 Proof. exact sdd_fold_memo_spec. Qed.
 Print Assumptions C07S_sdd_fold_memo_eq.
 
@@ -175,8 +173,9 @@ Theorem C07S_sdd_queries_commute : forall (T : Type) (qs : list (squery T)) (s :
 Proof. exact sdd_queries_commute. Qed.
 Print Assumptions C07S_sdd_queries_commute.
 
-(* count_nodes: from an all-empty scratch state it returns 2 per distinct reachable BinarySDD plus
-   the number of elements per distinct reachable SddOr, and leaves every slot empty again *)
+(* count_nodes (top-down marking with a usize in the scratch slot): from an all-empty scratch state
+   it returns 2 per distinct reachable BinarySDD plus the number of elements per distinct reachable
+   SddOr ([node_weight]) and leaves every slot empty again *)
 Theorem C07S_sdd_count_nodes_pure : forall (T : Type) p (s : sscratch T), sall_empty T s ->
   sall_empty T (snd (sdd_count_public T p s)) /\
   exists L, NoDup L /\ (forall n, In n L <-> In n (sdd_nodes p)) /\
@@ -184,32 +183,66 @@ Theorem C07S_sdd_count_nodes_pure : forall (T : Type) p (s : sscratch T), sall_e
 Proof. exact sdd_count_public_pure. Qed.
 Print Assumptions C07S_sdd_count_nodes_pure.
 
-(* non-vacuity: a balanced vtree over four variables, a program whose results are general decision
-   nodes, regular and complemented; the hypotheses hold, and the count over N with weights
-   lo = 1, hi = 0 ... *)
+(* the link to the builder (C03): every pool entry of every operation program, compression on or
+   off, is counted and evaluated correctly -- exactly the model run the correspondence drives *)
+Theorem C07S_run_prog_counted : forall (S : Type) (add mul : S -> S -> S) (zero one : S),
+  (forall a b, add a b = add b a) -> (forall a b c, add (add a b) c = add a (add b c)) ->
+  (forall a b c, mul (mul a b) c = mul a (mul b c)) -> (forall a b, mul a b = mul b a) ->
+  (forall a, mul a one = a) -> (forall a, mul a zero = zero) -> (forall a, add a zero = a) ->
+  (forall a b c, mul a (add b c) = add (mul a b) (mul a c)) ->
+  forall (wlo whi : var -> S), (forall v, add (wlo v) (whi v) = one) ->
+  forall t compress_on ops, NoDup (vleaves t) -> Forall (op_wf t) ops ->
+  exists pool, run_prog t compress_on ops = Ok pool /\
+    forall p, In p pool -> forall fl vars x a, NoDup vars -> incl (vleaves t) vars ->
+      sdd_wmc_c S add mul zero one wlo whi fl p =
+        wmc_spec S add mul zero one wlo whi vars (fun a => xorb fl (sden p a)) x /\
+      sdd_evaluate_m p a = sden p a /\ sdd_evaluate_m (sneg p) a = negb (sden p a).
+Proof.
+  intros S add mul zero one Hac Haa Hma Hmc Hm1 Hm0 Ha0 Hd wlo whi Hn t cm ops ND Hw.
+  destruct (run_prog_under t cm ops ND Hw) as (pool & E & HU). exists pool. split; [exact E|].
+  intros p Hin fl vars x a NDV INC. rewrite Forall_forall in HU. specialize (HU p Hin). split; [|split].
+  - apply (sdd_wmc_correct S add mul zero one Hac Haa Hma Hmc Hm1 Hm0 Ha0 Hd wlo whi Hn t p fl vars x ND HU NDV INC).
+  - apply (sdd_evaluate_correct_under t p a HU).
+  - rewrite (sdd_evaluate_correct_under t (sneg p) a (under_sneg _ _ _ HU)). apply sden_sneg.
+Qed.
+Print Assumptions C07S_run_prog_counted.
+
+(* non-vacuity: a balanced vtree over four variables, a program whose last result is a complemented
+   general decision node with three elements; the hypotheses of the theorems hold for it; with the
+   (normalised) indicator weights of the assignment x0 = x2 = 1, x1 = x3 = 0 over N the count is 1
+   for the pointer (the assignment is a model) and 0 for its negation, through the plain recursion
+   and through the scratch slots, which are empty afterwards; count_nodes = 3 elements + 2 * 3
+   binary nodes *)
 Example C07S_nonvacuous :
   let t := VNode (VNode (VLeaf 2%N) (VLeaf 0%N)) (VNode (VLeaf 3%N) (VLeaf 1%N)) in
   let ops := [OVar 0%N true; OVar 3%N false; OVar 2%N true; OVar 1%N true; OOr 0 1; OAnd 4 2; OXor 5 3] in
+  let hi := fun v : var => if N.eqb v 0 || N.eqb v 2 then 1%N else 0%N in
+  let lo := fun v : var => (1 - hi v)%N in
   NoDup (vleaves t) /\ Forall (op_wf t) ops /\
-  exists pool, run_prog t true ops = Ok pool /\
-    (exists els, nth 6 pool SF = SOr true 3 els /\ length els = 3) /\
-    under t 0 (nth 6 pool SF) /\
-    (* model counts (all weights 1: number of models over the four variables) *)
-    sdd_wmc_m N N.add N.mul 0%N 1%N (fun _ => 1%N) (fun _ => 1%N) (nth 6 pool SF) = 8%N /\
-    sdd_wmc_m N N.add N.mul 0%N 1%N (fun _ => 1%N) (fun _ => 1%N) (sneg (nth 6 pool SF)) = 8%N /\
-    fst (sdd_fold_public N 1%N 0%N (wlit N (fun _ => 1%N) (fun _ => 1%N)) N.mul N.add (nth 6 pool SF) (sempty N)) = 8%N /\
-    fst (sdd_count_public N (nth 6 pool SF) (sempty N)) = 7.
+  exists pool p, run_prog t true ops = Ok pool /\ nth 6 pool SF = p /\
+    (exists els, p = SOr true 3 els /\ length els = 3) /\
+    under t 0 p /\ parts p /\
+    (forall v, (lo v + hi v = 1)%N) /\
+    sdd_wmc_m N N.add N.mul 0%N 1%N lo hi p = 1%N /\
+    sdd_wmc_m N N.add N.mul 0%N 1%N lo hi (sneg p) = 0%N /\
+    fst (sdd_wmc_public N N.add N.mul 0%N 1%N lo hi p (sempty N)) = 1%N /\
+    sdd_all_cleared (snd (sdd_wmc_public N N.add N.mul 0%N 1%N lo hi p (sempty N))) p = true /\
+    fst (sdd_count_public N p (sempty N)) = 9.
 Proof.
-  cbv zeta. split; [simpl; repeat (apply NoDup_cons; [simpl; intuition discriminate|]); apply NoDup_nil|].
-  split; [repeat (apply Forall_cons; [simpl; auto 10|]); apply Forall_nil|].
+  cbv zeta.
   assert (ND : NoDup (vleaves (VNode (VNode (VLeaf 2%N) (VLeaf 0%N)) (VNode (VLeaf 3%N) (VLeaf 1%N))))).
   { simpl; repeat (apply NoDup_cons; [simpl; intuition discriminate|]); apply NoDup_nil. }
   assert (WF : Forall (op_wf (VNode (VNode (VLeaf 2%N) (VLeaf 0%N)) (VNode (VLeaf 3%N) (VLeaf 1%N))))
                  [OVar 0%N true; OVar 3%N false; OVar 2%N true; OVar 1%N true; OOr 0 1; OAnd 4 2; OXor 5 3]).
   { repeat (apply Forall_cons; [simpl; auto 10|]); apply Forall_nil. }
-  destruct (Proofs.SddProg.run_prog_under _ true _ ND WF) as (pool & E & HU).
-  exists pool. split; [exact E|].
-  vm_compute in E. injection E as <-.
-  split; [eexists; split; reflexivity|].
-  split; [apply (Forall_forall _ _ |> proj1) with (x := nth 6 _ SF) in HU|].
-Abort.
+  split; [exact ND|]. split; [exact WF|].
+  destruct (run_prog_under _ true _ ND WF) as (pool & E & HU).
+  exists pool, (nth 6 pool SF). split; [exact E|]. split; [reflexivity|].
+  assert (HU6 : under (VNode (VNode (VLeaf 2%N) (VLeaf 0%N)) (VNode (VLeaf 3%N) (VLeaf 1%N))) 0 (nth 6 pool SF)).
+  { apply Forall_nth_in; [exact HU|]. vm_compute in E. injection E as <-. simpl. lia. }
+  split; [|split; [exact HU6|split; [eapply under_parts; exact HU6|]]];
+    clear HU HU6; vm_compute in E; injection E as <-.
+  - eexists. split; reflexivity.
+  - split; [intros v; destruct (N.eqb v 0 || N.eqb v 2); reflexivity|].
+    vm_compute. repeat split; reflexivity.
+Qed.
